@@ -168,7 +168,21 @@ func (s *Sim) OnTx(m *Model, t *TxTrace) {
 		s.onEpoch(m, t)
 		return
 	}
+	if s.forceFail[t.Tx.Hash()] {
+		// hook H3 failed this call after its handler ran: it must have failed (checked above
+		// for leftovers); the semantic oracles treat it as a transaction that never happened
+		if t.OK {
+			r.Fail("C15", "forced-failure-ignored", "tx %d (%v) reported success although its call failed after the handler", t.Index, stepOf(t))
+		}
+		r.Probe("forced_failure_after_handler")
+		s.onEpoch(m, t)
+		return
+	}
 	st := t.P.Step
+	if st.Op == "raw" {
+		s.onEpoch(m, t)
+		return
+	}
 	signer, okS := s.signerOf(st)
 	switch st.Op {
 	case "approvecand", "blacknode", "whitenode", "approvechain", "approveupd", "approvequit", "approverelayer", "approvermrelayer":
